@@ -802,7 +802,11 @@ def run_expdtype(ctx) -> RuleResult:
                         exps = _arg(step.expand(call), "exponents", params)
                         if exps is None:
                             continue
+                        in_lambda = {id(sub) for lam in walk_shared(exps) if isinstance(lam, ast.Lambda)
+                                     for sub in ast.walk(lam.body)}
                         for node in walk_shared(exps):
+                            if id(node) in in_lambda:
+                                continue  # a factory (defaultdict(lambda: zeros(..., dtype))) creates values, not the key matrix
                             if isinstance(node, ast.Call) and not is_S(node):
                                 name = ctx.dotted(module, node.func) or ""
                                 if name in ("numpy.zeros", "numpy.ones", "numpy.empty", "numpy.full", "numpy.array", "numpy.asarray"):
